@@ -81,15 +81,25 @@ def opAsmCall (j : Json) : R Json := do
 
 /-- op `asm_fs`: the call in a directory given as parallel lists `names`, `contents` (every file the harness put
 there: the listed inputs under the argument strings handed to the real call, and all their neighbours), the
-argument list `inputs` (names; a name without an entry is missing) and the output name `out`.  Answers how the
-call ends, whether the lines written equal `observed`, and which names read differently afterwards. -/
+argument list `inputs` (names; a name without an entry is missing) and the output name `out`.  Optional `keys`
+(parallel to `names`) and `out_key`: the identity of the file each name denotes (several names may denote one file:
+other spellings, symbolic links, hard links — the output possibly the file of an input); without them every name is
+its own file.  Answers how the call ends, whether the lines written equal `observed`, and which names read
+differently afterwards. -/
 def opAsmFs (j : Json) : R Json := do
   let names ← listF asStr j "names"
   let contents ← listF asFile j "contents"
   let inputs ← listF asStr j "inputs"
   let out ← asStr (← fld j "out")
-  let d : Fs String := names.zip contents
-  let (o, after) := assembleIn d inputs out
+  let keys ← match optFld j "keys" with
+    | some _ => listF asStr j "keys"
+    | none => pure names
+  let outKey ← match optFld j "out_key" with
+    | some k => asStr k
+    | none => pure ((((names.zip keys).lookup out)).getD out)
+  let table := (out, outKey) :: names.zip keys
+  let d : Dir String String := ⟨fun p => (table.lookup p).getD p, keys.zip contents⟩
+  let (o, after) := assembleInDir d inputs out
   let res : Json := match o.result with
     | .returned => Json.mkObj [("kind", Json.str "returned")]
     | .fileNotFound m => Json.mkObj [("kind", Json.str "FileNotFoundError"), ("missing", jStrs m)]
